@@ -108,6 +108,12 @@ public:
       std::string const format_part_2 =
         _time_format.substr(specifier_end, _time_format.length() - specifier_end);
 
+      if (format_part_2.find(specifier_name[_additional_format_specifier]) != std::string::npos)
+      {
+        // the same specifier is repeated; the second one would be passed verbatim to strftime
+        QUILL_THROW(QuillError{"format specifiers %Qms, %Qus and %Qns can only be used once"});
+      }
+
       if (!format_part_2.empty())
       {
         _strftime_part_2.init(format_part_2, _timestamp_timezone);
